@@ -147,7 +147,8 @@ def stage_real_tasks(ctx):
     import env as envmod
     import wharness
     scenarios = [("pull", 0, "none", "ok"), ("pull", 1, "rsync-only", "ok"), ("pull", 1, "rsync-only", "fail-src"),
-                 ("pull", 2, "none", "ok"), ("check", 0, "none", "ok"), ("delete", 0, "none", "ok"), ("search", 0, "none", "ok"),
+                 ("pull", 2, "none", "ok"), ("check", 0, "none", "ok"), ("delete", 0, "none", "ok"), ("search", 0, "none", "ok"), ("search", 10, "none", "ok"), ("search-pass", 0, "none", "ok"), ("search-pass", 10, "none", "ok"),
+                 ("pull", 10, "none", "ok"),
                  ("import-event", 0, "none", "ok"), ("import-event", 1, "none", "ok"), ("import-request", 0, "none", "ok"),
                  ("import-request", 1, "none", "ok")]
     if not ctx.quick():
